@@ -107,6 +107,14 @@ def _rand_body(rng, nf, depth, in_try, allow_sub, ctr, maxlen=4):
     return [_rand_stmt(rng, nf, depth, in_try, allow_sub, ctr) for _ in range(rng.randint(1, maxlen))]
 
 
+def _rand_prog(rng, nf, depth, maxlen=5):
+    body = _rand_body(rng, nf, depth, False, True, [0], maxlen=maxlen)
+    if rng.random() < 0.25:
+        # the body sets the context variable itself (only as its first statement, so later reads are static)
+        body = [["ctxset", 78 + rng.randrange(3)]] + body + ([["ctx"]] if rng.random() < 0.5 else [])
+    return body
+
+
 FIXED = [
     [],
     [["ret", 5, "return"]],
@@ -122,6 +130,8 @@ FIXED = [
     [["try", [["yf", 0], ["ret", 5, "return"]], None, [["eff", 3]]], ["eff", 4]],
     [["try", [["try", [["yf", 0]], None, [["eff", 1]]]], [["eff", 2], ["raise", 41]], [["eff", 3]]]],
     [["ctx"], ["yf", 0], ["ctx"], ["ym", "moment"], ["ctx"]],
+    [["ctxset", 78], ["ctx"], ["yf", 0], ["ctx"]],
+    [["ctxset", 79], ["ret", 5, "return"]],
     [["sub", [["yf", 0], ["eff", 1], ["retlast"]]], ["retlast"]],
     [["try", [["sub", [["yf", 0], ["raise", 42]]]], [["eff", 2]], None], ["yf", 1]],
     [["yf", 0], ["ym", "moment"], ["yl", [1, 2], False], ["ym", "none"], ["yf", 2], ["retlast"]],
@@ -154,14 +164,14 @@ def _cases_for(prog, nf, rng, full):
 
 
 def gen_cases(rng, tier):
-    nprog = {"quick": 220, "thorough": 4000, "search": 300}[tier]
+    nprog = {"quick": 220, "thorough": 1500, "search": 300}[tier]
     depth = 3 if tier != "thorough" else 4
     if tier != "search":
         for prog in FIXED:
             yield from _cases_for(prog, 3, rng, tier == "thorough" or not _has(prog, "try"))
     for _ in range(nprog):
         nf = rng.randint(1, 3)
-        prog = _rand_body(rng, nf, rng.randint(1, depth), False, True, [0], maxlen=5)
+        prog = _rand_prog(rng, nf, rng.randint(1, depth))
         yield from _cases_for(prog, nf, rng, tier == "thorough" and rng.random() < 0.3)
     # a few incomplete schedules: some awaited future never completes
     for _ in range(nprog // 4):
@@ -180,6 +190,7 @@ def compile_prog(prog):
     if _has(prog, "sub"):
         return None
     code = []
+    ctxval = prog[0][1] if prog and prog[0][0] == "ctxset" else CTXVAL
 
     def emit(i):
         code.append(i)
@@ -195,7 +206,9 @@ def compile_prog(prog):
             if t == "eff":
                 emit(["eff", s[1]])
             elif t == "ctx":
-                emit(["eff", CTXVAL])
+                emit(["eff", ctxval])
+            elif t == "ctxset":
+                pass
             elif t == "yf":
                 emit(["yf", s[1]])
             elif t == "yl":
@@ -254,6 +267,8 @@ def render(prog, native):
                 out.append(pad + "T.append(['k', %d])" % s[1])
             elif t == "ctx":
                 out.append(pad + "T.append(['k', CV.get()])")
+            elif t == "ctxset":
+                out.append(pad + "CV.set(%d)" % s[1])
             elif t == "yf":
                 out.append(pad + ("last = await F[%d]" if nat else "last = yield F[%d]") % s[1])
                 out.append(pad + "T.append(['g', canon(last)])")
@@ -327,6 +342,7 @@ def _run_form(case, native, lp):
     tok = CV.set(CTXVAL)
     try:
         res = asyncio.ensure_future(ns["main"](F, T)) if native else ns["main"](F, T)
+        leak = CV.get() != CTXVAL     # a CV.set() inside the coroutine must not reach the caller's context
     finally:
         CV.reset(tok)
     tr = [[len(T), _res_state(res)]]
@@ -350,7 +366,7 @@ def _run_form(case, native, lp):
             lp._one_iteration()
     for f in F:
         _c36._state(f)
-    return {"trace": tr, "T": T_final, "quiet": quiet, "final": [_c36._state(f) for f in F]}
+    return {"trace": tr, "T": T_final, "quiet": quiet, "final": [_c36._state(f) for f in F], "leak": leak}
 
 
 def run_impl(case):
@@ -457,6 +473,9 @@ def spec_violation(case, impl, replies):
     if d["cberrs"]:
         return "decorated: exception escaped to the event loop: %s" % d["cberrs"][0]
     rd, rn = d["trace"][-1][1], n["trace"][-1][1]
+    if d["leak"] != n["leak"]:
+        return "context: a variable set inside the coroutine %s the caller (native: %s)" % (
+            "leaked to" if d["leak"] else "did not reach", "leaked" if n["leak"] else "isolated")
     if d["T"] != n["T"]:
         k = next((i for i, (a, b) in enumerate(zip(d["T"], n["T"])) if a != b), min(len(d["T"]), len(n["T"])))
         return "side effects differ at #%d: decorated %r, native %r" % (k, d["T"][k:k + 2], n["T"][k:k + 2])
@@ -487,7 +506,7 @@ def nontrivial(case, impl):
 def stats(case, impl):
     out = []
     p = case["prog"]
-    for kind in ("yf", "yl", "ym", "try", "sub", "ctx", "raise", "ret"):
+    for kind in ("yf", "yl", "ym", "try", "sub", "ctx", "ctxset", "raise", "ret"):
         if _has(p, kind):
             out.append("prog:has-" + kind)
     if "dec" in impl:
